@@ -302,6 +302,22 @@ def event_oracle(ctx, H, E):
                     ctx.finding(f"{name}:removed-{kind}", f"{name}: <{r}> containing {kind} is not removed cleanly "
                                 f"(state after the element differs from the state without it)",
                                 {"machine": name, "events": a, "without": pre0 + post0})
+        # comments at visible positions are inert
+        for a, b in (([("S", "p", ()), ("D", "a"), ("C", "hid"), ("D", "b"), ("E", "p")], [("S", "p", ()), ("D", "a"), ("D", "b"), ("E", "p")]),
+                     (pre0 + [("C", "<p>hid</p>")] + post0, pre0 + post0),
+                     ([("C", "hid")] + post0, post0)):
+            ctx.case((name, "comment-visible", a), True, kind=f"{name}-oracle:comment-visible")
+            if not same(name, cls, obs, a, b):
+                ctx.finding(f"{name}:comment-visible", f"{name}: a comment at a visible position changes the state (events {a!r})",
+                            {"machine": name, "events": a, "without": b})
+        for _ in range(ctx.n(300, 3000)):
+            evs = random_events(rng, tags + removable, rng.randint(0, 12))
+            i = rng.randint(0, len(evs))
+            a = evs[:i] + [("C", rng.choice(["hid", "<p>hid</p>", "</noscript>"]))] + evs[i:]
+            ctx.case((name, "comment-rand", a), True, kind=f"{name}-oracle:comment-random")
+            if not same(name, cls, obs, a, evs):
+                ctx.finding(f"{name}:comment-visible", f"{name}: a comment changes the state (events {a!r})",
+                            {"machine": name, "events": a, "without": evs})
         # random probes
         for _ in range(ctx.n(1500, 15000)):
             pre = random_events(rng, tags, rng.randint(0, 8))
@@ -408,7 +424,17 @@ class Doc:
     # visible blocks ---------------------------------------------------------------------------
     def block(self):
         rng = self.rng
-        k = rng.choice(["p", "div", "h", "list", "table", "link", "br", "inline-rem", "hr"])
+        k = rng.choice(["p", "div", "h", "list", "table", "link", "br", "inline-rem", "hr", "comment", "comment"])
+        if k == "comment":
+            self.features.add("comment-visible")
+            c = rng.randint(0, 3)
+            if c == 0:
+                return f"<p>{self.vis()} <!-- {self.hid()} --> {self.vis()}</p>"
+            if c == 1:
+                return f"<!-- <p>{self.hid()}</p> -->"
+            if c == 2:
+                return f"<div>{self.vis()}<!--{self.hid()}--></div>"
+            return f"<!--[if lt IE 9]><p>{self.hid()}</p><![endif]-->"
         if k == "p":
             return f"<p>{self.vis()}</p>"
         if k == "div":
@@ -573,6 +599,15 @@ def text_level(ctx, H, E):
                 key = f"{fam}:{kind}" if kind.startswith("void-removable") else f"{fam}:removed-{kind}"
                 ctx.finding(key, f"{path}: {why} for {body!r}", {"path": path, "html_body": body, "why": why,
                                                                  "visible": d.visible, "hidden": d.hidden})
+    # comments at visible positions
+    d = Doc(rng)
+    d.visible, d.hidden = ["vis1z", "vis2z", "vis3z"], ["hid1z", "hid2z", "hid3z"]
+    body = "<p>vis1z</p><!-- hid1z --><p>vis2z <!--hid2z--> vis3z</p><!-- <p>hid3z</p> -->"
+    ctx.case(("text-probe", body), True, kind="text-probe")
+    for path, why in evaluate(body, d):
+        fam = "epub" if path.startswith("read_epub") else "html"
+        ctx.finding(f"{fam}:comment-visible", f"{path}: {why} for {body!r}", {"path": path, "html_body": body, "why": why,
+                                                                              "visible": d.visible, "hidden": d.hidden})
     # head-level script/style
     d = Doc(rng)
     d.visible, d.hidden = ["vis1z"], ["hid1z", "hid2z"]
@@ -590,16 +625,17 @@ def text_level(ctx, H, E):
             fam = "epub" if path.startswith("read_epub") else "html"
             # classify by the single-content probes of the same family that fail too
             kind = "other"
-            for k in ("void-removable", "void-child", "unclosed-child", "stray-end-tag", "nested-removable",
+            for k in ("comment-visible", "void-removable", "void-child", "unclosed-child", "stray-end-tag", "nested-removable",
                       "selfclosed-child", "comment", "cdata", "element", "text"):
                 if k in d.features:
                     d2 = Doc(rng)
                     d2.visible, d2.hidden = ["vis1z", "vis2z"], ["hid1z"]
-                    mk = '<embed src="hid1z">' if k == "void-removable" else f"<noscript>{probes[k]}</noscript>"
+                    mk = ('<embed src="hid1z">' if k == "void-removable" else "<!-- hid1z -->" if k == "comment-visible"
+                          else f"<noscript>{probes[k]}</noscript>")
                     if any((p.startswith("read_epub") == (fam == "epub")) for p, _ in evaluate(f"<p>vis1z</p>{mk}<p>vis2z</p>", d2)):
                         kind = k
                         break
-            key = f"{fam}:{kind}" if kind == "void-removable" else f"{fam}:removed-{kind}"
+            key = f"{fam}:{kind}" if kind in ("void-removable", "comment-visible") else f"{fam}:removed-{kind}"
             ctx.finding(key, f"{path}: {why} for generated document", {"path": path, "html_body": body, "why": why,
                                                                          "visible": d.visible, "cells": d.cells, "hidden": d.hidden})
 
